@@ -104,6 +104,8 @@ class Ctx:
             shown += 1
         if shown > 40:
             print("   ... %d further violation keys (replay files written for the first 200)" % (shown - 40))
+        if os.environ.get('VERIF_DUMP'):
+            json.dump({k: dict(what=v['what'], count=v['count']) for k, v in self.viol.items()}, open(os.environ['VERIF_DUMP'], 'w'), indent=0)
         cov = dict(self.cov)
         if cov["distinct_nontrivial"] > cov["evaluations"]:
             cov["distinct_nontrivial"] = cov["evaluations"]
